@@ -420,7 +420,7 @@ TREE_MUTATIONS = ["unknown_tag", "ext_not_allowed", "ext_existing_term", "requir
                   "duplicate_group", "taggroup_tag_at_top", "toplevel_group_nested", "definition_in_string",
                   "unique_twice", "empty_group", "onset_extra_group", "onset_no_def", "offset_with_group",
                   "duration_two_groups", "ext_bad_char", "toplevel_group_nested_twin",
-                  "duplicate_among_same_base"]
+                  "duplicate_among_same_base", "two_toplevel_tags_in_group"]
 TEXT_MUTATIONS = ["paren_extra_open", "paren_extra_close", "paren_removed", "paren_wrong_order", "double_comma",
                   "leading_comma", "trailing_comma", "comma_missing_before_group", "comma_missing_after_group",
                   "forbidden_char"]
@@ -487,6 +487,9 @@ def mutated(draw, ann, kinds=None, start=0):
             ok = (not allow_ph) and bool(unused(pl.valued))
         elif k == "duplicate_among_same_base":
             ok = bool(unused(pl.valued))
+        elif k == "two_toplevel_tags_in_group":
+            ok = pl.has["event-context"] and pl.has["duration"] and \
+                "topLevelTagGroup" in pl.special("Duration").attrs
         elif k == "def_undeclared":
             ok = pl.has["def"]
         elif k == "def_value_missing":
@@ -694,6 +697,18 @@ def mutated(draw, ann, kinds=None, start=0):
             lst.insert(draw(st.integers(0, len(lst))),
                        make_tag(f"{spelled(draw, node, m)}/{val}", tag_id(node, val), node=node.long, kind="value"))
         expect = "TAG_EXPRESSION_REPEATED"
+    elif kind == "two_toplevel_tags_in_group":
+        # two top-level-only tags in one group that are not a legal (Delay + temporal) pair
+        extra = [n for n in pl.plain if n.long not in used]
+        inner = make_group([make_tag(extra[0].short, tag_id(extra[0]), node=extra[0].long, kind="plain")])
+        pairs = [["Duration/3 s", "Event-context"], ["Duration/3 s", "Duration/4 s"]]
+        if pl.has["delay"]:
+            pairs += [["Delay/2 s", "Event-context"], ["Delay/2 s", "Delay/1 s"]]
+        pair = pick(pairs)
+        members = [make_tag(pair[0], pair[0].casefold(), kind="duration"),
+                   make_tag(pair[1], pair[1].casefold(), kind="context" if "context" in pair[1] else "duration"), inner]
+        tree.insert(draw(st.integers(0, len(tree))), make_group(draw(st.permutations(members)), sealed=True))
+        expect = "TAG_GROUP_ERROR"
     elif kind == "toplevel_group_nested_twin":
         # a legal top-level Duration group plus an identical copy nested inside another group (the copy is misplaced)
         extra = [n for n in pl.plain if n.long not in used]
